@@ -202,3 +202,18 @@ MANIFEST_TEXT["C18"] = {
     "note": "Trusted: Lean kernel, extractor, harness. Replay semantics are go-eventlog's (parameter); which registers the sample log has events for is observed through the direct replay call.",
     "technique": "Lean 4 proof (sequencing over parametric gates) + differential correspondence",
 }
+
+PROPS["C16"] = {
+    "prebuild": [{"cwd": "{root}/harness", "cmd": ["go", "test", "-race", "-c", "-modfile={root}/.cache/harness.mod", "-o", "{bin}/tdxrace", "./race"]}],
+    "driver_cmd": ["env", "TDX_OUT={out}", "TDX_TIER={tier}", "TDX_SEED={seed}", "{bin}/tdxrace", "-test.run", "^TestC16$", "-test.count=1", "-test.timeout=30m"],
+    "tie_theorems": [],
+    "rule": "byte-for-byte snapshots TO CAPACITY (spare capacity pre-filled with a sentinel) of every field of the message, the raw input and the option byte strings around each single call of 12 entry points (verify.TdxQuote at three option levels, SupportedTcbLevelsFromCollateral, validate.TdxQuote, QuoteToAbiBytes, the three exported sub-serialisers, CheckQuoteV4, ExtractChainFromQuote, GetRtmrsFromTdQuote) for quotes parsed from bytes / re-homed field by field inside one shared arena / round-tripped through protobuf / built directly, with QE auth data of 0,1,17,32,64,200 bytes; pointer-range disjointness of parsed fields from the input and overwrite-after-parse; go test -race with 8 (quick) / 48 (thorough) goroutines x 150 / 1500 iterations over one shared message with per-goroutine options, verdicts compared with the solo run; non-trivial = every case; distinct = (entry point, construction, auth length)",
+    "trusted_base": ["the Go race detector and memory model (no conflicting access => no race); schedules are only explored",
+                     "the write-site inventory's provenance classification is a conservative syntactic analysis (unknown => not fresh)"],
+    "assumptions": ["callees in the standard library, protobuf and go-eventlog do not write to their byte-slice arguments (exercised by the snapshots, not proved)"],
+}
+MANIFEST_TEXT["C16"] = {
+    "text": "Lean heap model (buffers with identity, slices with capacity, Go append semantics, write log): the frame lemma, concat_key_auth / concat_header_body / apply_mask write only into buffers allocated during the call, clone_is_fresh_copy, readers_commute (any interleaving of write logs that avoid the shared buffers reads the same); tie to the source by two regenerated inventories proved by kernel evaluation — all_write_sites_fresh (every append/copy/store/PutUint site of abi.go, verify.go, validate.go has a fresh destination) and parser_output_disjoint_from_input (no *ToProto function lets a field alias its parameter) — plus dynamic validation: snapshots to capacity around 12 entry points for four constructions of the message, aliasing checks, and the race detector on concurrent use.",
+    "note": "Partial: the model proves there is nothing to race on and ties that to the source through the write-site inventory; actual interleavings are only explored with the race detector. Trusted: Lean kernel, extractor (syntactic provenance analysis), harness, Go race detector.",
+    "technique": "Lean 4 proof over a heap model + regenerated write-site/alias inventories + snapshot and race-detector exploration",
+}
